@@ -156,3 +156,29 @@ M("hoo-truncation-off-by-one", "PyXAB/algos/HOO.py", "        if path[-1].depth 
 M("hoo-truncation-log-base", "PyXAB/algos/HOO.py", "(np.log(self.rounds) / 2 - np.log(1 / self.nu)) / np.log(1 / self.rho)",
   "(np.log2(self.rounds) / 2 - np.log(1 / self.nu)) / np.log(1 / self.rho)", ["C06"])
 M("hct-tplus-floor", "PyXAB/algos/HCT.py", "return np.power(2, np.ceil(np.log(x) / np.log(2)))", "return np.power(2, np.floor(np.log(x) / np.log(2)))", ["C05", "C06"])
+
+# ---- recommendations (C07)
+M("soo-recommend-min", "PyXAB/algos/SOO.py", "                if node.get_reward() >= max_value:\n                    max_value = node.get_reward()\n                    max_node = node\n        return max_node.get_cpoint()",
+  "                if node.get_reward() >= max_value and h > 0:\n                    max_value = node.get_reward()\n                    max_node = node\n        return max_node.get_cpoint()", ["C07"])
+M("sequool-recommend-last-reward", "PyXAB/algos/SequOOL.py", "        return self.rewards[0]", "        return self.rewards[-1] if self.depth > 2 else self.rewards[0]", [])
+M("sequool-recommend-skip-depth1", "PyXAB/algos/SequOOL.py", "        for node in self.chosen:\n            if node.get_reward() >= max_value:",
+  "        for node in self.chosen[2:]:\n            if node.get_reward() >= max_value:", ["C07"])
+M("stosoo-recommend-all-layers", "PyXAB/algos/StoSOO.py", "        max_depth = self.partition.get_depth()\n", "        max_depth = max(self.partition.get_depth() - 1, 0)\n", ["C07"])
+M("stroquool-recommend-first", "PyXAB/algos/StroquOOL.py", "            if node.get_mean_reward() >= max_value:\n                max_value = node.get_mean_reward()\n                max_node = node\n        return max_node.get_cpoint()",
+  "            if node.get_mean_reward() >= max_value or max_node is None:\n                max_value = node.get_mean_reward()\n                max_node = node\n        return self.candidate[0].get_cpoint() if len(self.candidate) > 1 else max_node.get_cpoint()", ["C07"])
+M("poo-recommend-argmin", "PyXAB/algos/POO.py", "max_param = np.argmax(V_reward)", "max_param = np.argmax(np.abs(V_reward))", ["C07", "C10"])
+M("gpo-recommend-abs", "PyXAB/algos/GPO.py", "return self.V_x[np.argmax(np.array(self.V_reward))]", "return self.V_x[np.argmax(np.abs(np.array(self.V_reward)))]", ["C07", "C09"])
+M("doo-recommend-b-value", "PyXAB/algos/DOO.py", "                reward = node.get_reward()\n                if reward >= max_value:",
+  "                reward = node.get_reward() if node.get_children() is None else -np.inf\n                if reward >= max_value:", ["C07"])
+
+# ---- SOO / StoSOO / DOO rules (C08)
+M("soo-vmax-dropped", "PyXAB/algos/SOO.py", "                if max_value >= v_max:", "                if True:", [])  # unobservable: sweeps are single-expansion (DESIGN 2.3 note)
+M("soo-compare-reversed", "PyXAB/algos/SOO.py", "                            node.get_reward() >= max_value\n", "                            -node.get_reward() >= max_value\n", ["C08"])
+M("soo-depth-cap-ignored", "PyXAB/algos/SOO.py", "while h <= min(self.partition.get_depth(), self.h_max):", "while h <= self.partition.get_depth():", [])  # equivalent inside the property's domain: SOO is breadth-first, a cap that holds the budget never binds
+M("soo-reevaluate", "PyXAB/algos/SOO.py", "                            node.visit()\n", "                            node.visited = node.get_depth() != 3\n", ["C08"])
+M("stosoo-k-cap-dropped", "PyXAB/algos/StoSOO.py", "if node_list[h][max_b_node_ind].get_visited_times() < self.k:", "if node_list[h][max_b_node_ind].get_visited_times() < self.k + (h == 2):", ["C08"])
+M("stosoo-b-sign", "PyXAB/algos/StoSOO.py", "self.b_value = self.mean_reward + np.sqrt(", "self.b_value = self.mean_reward - np.sqrt(", ["C08"])
+M("stosoo-argmin-b", "PyXAB/algos/StoSOO.py", "                                <= node_list[h][j].get_b_value()", "                                >= node_list[h][j].get_b_value()", ["C08"])
+M("doo-minus-delta", "PyXAB/algos/DOO.py", "self.b_value = self.reward + delta", "self.b_value = self.reward - delta", ["C08"])
+M("doo-delta-wrong-depth", "PyXAB/algos/DOO.py", "            delta = self.delta(h)\n", "            delta = self.delta(max(h - 1, 0))\n", ["C08"])
+M("doo-max-per-level-only", "PyXAB/algos/DOO.py", "                        if node.get_b_value() >= max_value:", "                        if node.get_b_value() >= max_value or node.get_depth() > max_node.get_depth() + 2:", ["C08"])
